@@ -59,6 +59,10 @@ def run_case(case):
             else:
                 a = fml.V(rng.choice(sig))
                 facts_ast.append(fml.And(a, fml.Not(a)))
+    if use_facts and len(sig) >= 2 and rng.random() < 0.12:
+        t1, t2 = gen.deep_twins(rng, sig, [])      # two facts identical down to nesting depth >= 6
+        facts_ast = [t1[1], t2[1]] if rng.random() < 0.5 else [t1[0], t2[0]]
+        bump('objects_with_deep_twin_facts')
     if weak_wanted:
         extended = rng.choice([True, True, None]) if use_facts else True
     else:
